@@ -686,7 +686,8 @@ def check(pid, argv=None):
     nvar = {j[0]: e[5] for j, e in zip(jobs_x, tier["export"])}
     jobs_c = [(f"inv-s{''.join(map(str, s))}d{d}h{mh}", consts(s, d, mh, vals, ws), False, w, False) for s, d, mh, vals, ws, w in tier["check"]]
     jobs_c += [(f"prop-s{''.join(map(str, s))}d{d}", consts(s, d, mh, vals, ws), True, w, False) for s, d, mh, vals, ws, w in tier["props"]]
-    jobs_c += [("selftest-bug", consts(1, 2, 3, "{1}", '{"a"}', bug="TRUE"), False, 1, True)]
+    jobs_c += [("selftest-bug", consts(1, 2, 3, "{1}", '{"a"}', bug="TRUE"), False, 1, True),
+               ("selftest-bug-nested-ref", consts(8, 2, 6, "{1}", '{"a"}', bug="TRUE"), False, 1, True)]     # ... also for parts that hold references
     mc, xstats, files, results = {}, {}, {}, []
     per_op = collections.Counter()
     gid = 0
@@ -711,8 +712,8 @@ def check(pid, argv=None):
             for f in fc:
                 tag, res = f.result()
                 mc[tag] = dict(states=res["distinct"], generated=res["generated"], wall=round(res["wall"], 1),
-                               **({"violated_as_expected": res["violated"][:1]} if tag == "selftest-bug" else {}))
-                if tag != "selftest-bug":
+                               **({"violated_as_expected": res["violated"][:1]} if tag.startswith("selftest-bug") else {}))
+                if not tag.startswith("selftest-bug"):
                     run.add_tlc(res)
             run.notes["t_tlc"] = round(time.time() - t1, 1)
             for f in rfut:
